@@ -808,6 +808,19 @@ example : posixBlock.length = 512 ∧ isZeroBlock posixBlock = false ∧ checkVe
     isChecksumValid posixBlock = true ∧ (slice posixBlock 156 1).headD 0 = 48 := by decide
 
 set_option maxRecDepth 1000000 in
+/-- `checksum_roundtrip` applied to the POSIX block (512 bytes) -/
+example := checksum_roundtrip posixBlock (by decide)
+
+set_option maxRecDepth 1000000 in
+/-- `read_header_after_records` applied to the POSIX block with every hypothesis discharged: a preceding PAX record has set
+the name (`PAX_NAME`, "n"); fuel 3 + 1, two bytes follow the block -/
+example :=
+  have pb : posixBlock.length = 512 ∧ isZeroBlock posixBlock = false ∧ checkVersion posixBlock = some .posix ∧
+      isChecksumValid posixBlock = true ∧ (slice posixBlock 156 1).headD 0 = 48 := by decide
+  read_header_after_records {} 3 posixBlock [9, 9] false .posix PAX_NAME { name := some (ascii "n") } pb.1 pb.2.1 pb.2.2.1
+    pb.2.2.2.1 (by rw [pb.2.2.2.2]; decide) rfl (by decide)
+
+set_option maxRecDepth 1000000 in
 example : (specDecode posixBlock 0 {} .posix).map (fun d => (d.name, d.mode, d.uid, d.gid, d.recordSize, d.mtime)) =
     some (some (ascii "some/dir/file"), 0o100644, 1000, 100, 5, 1542905892) := by decide
 
